@@ -525,9 +525,8 @@ Extra:\n{self.extra_map}
         # clone the transaction from self.tx_obj
         tx_obj = self.tx_obj.clone()
         # determine if the transaction is segwit by looking for a witness field
-        #  in any PSBTIn. if so, set tx_obj.segwit = True
-        if any([psbt_in.witness for psbt_in in self.psbt_ins]):
-            tx_obj.segwit = True
+        #  in any PSBTIn: the transaction is segwit exactly when there is one
+        tx_obj.segwit = any([psbt_in.witness for psbt_in in self.psbt_ins])
         # iterate through the transaction and PSBT inputs together
         #  using zip(tx_obj.tx_ins, self.psbt_ins)
         for tx_in, psbt_in in zip(tx_obj.tx_ins, self.psbt_ins):
